@@ -161,12 +161,14 @@ def _rec():
     return M.optimize
 
 
-def make_df(rows, labels=None, int_load=False, no_fracture_column=False):
+def make_df(rows, labels=None, int_load=False, no_fracture_column=False, int_cycles=False):
     """the data frame handed to the real code; `labels` = row labels (None: a fresh RangeIndex)"""
     df = pd.DataFrame({"load": [float(r[0]) for r in rows], "cycles": [float(r[1]) for r in rows],
                        "fracture": [bool(r[2]) for r in rows]}, index=labels)
     if int_load:
         df["load"] = df["load"].astype("int64")
+    if int_cycles:
+        df["cycles"] = df["cycles"].astype("int64")
     if no_fracture_column:
         df = df[["load", "cycles"]]
     return df
@@ -359,7 +361,7 @@ def gen_sd(rng):
     return rng.choice([logu(rng, 1, 1000), logu(rng, 1e-4, 1e4), logu(rng, 1e-4, 1e-1), 300.0, 100.0])
 
 
-def gen_rows(rng, ml=False, mode=None):
+def gen_rows(rng, ml=False, mode=None, early=False):
     for _ in range(400):
         k = rng.uniform(3, 12)
         SD = gen_sd(rng)
@@ -404,6 +406,11 @@ def gen_rows(rng, ml=False, mode=None):
                 rows.append([L, min(ND * (L / SD) ** (-k) * 10 ** rng.gauss(0, sN), limit * 0.99), True])
             if not nonmonotonic(rows):
                 continue
+        if early and md != "no_runouts":
+            # the run-outs were taken off early: their cycle number lies below the knee of the S-N curve (the zones and
+            # the likelihood do not look at the cycle number of a run-out)
+            stop = ND * rng.uniform(0.05, 0.3)
+            rows = [[r[0], r[1] if r[2] else stop, r[2]] for r in rows]
         rng.shuffle(rows)
         if admissible(rows) and (not ml or ml_admissible(rows)):
             return rows, {"k_1": k, "ND": ND, "SD": SD, "TN": TN, "TS": TS}
@@ -454,16 +461,16 @@ def gen_rel(rng):
     return {"stub": one(), "points": [{k: 1.0 for k in KEYS}, one(), one(), neg, zero_nd]}
 
 
-def gen_data(rng, mode=None):
-    rows, p = gen_rows(rng, mode=mode)
+def gen_data(rng, mode=None, early=False):
+    rows, p = gen_rows(rng, mode=mode, early=early)
     q = {k: v * rng.uniform(0.8, 1.25) for k, v in p.items()}
     q["TN"], q["TS"] = max(q["TN"], 1.05), max(q["TS"], 1.02)
     return {"kind": "data", "rows": rows, "points": [p, q], "perm_seed": rng.randrange(10 ** 6),
             "labels": gen_labels(rng, rows), "factors": gen_factors(rng) + gen_factors(rng), "rel": gen_rel(rng)}
 
 
-def gen_ml(rng, name):
-    rows, p = gen_rows(rng, ml=True)
+def gen_ml(rng, name, early=False):
+    rows, p = gen_rows(rng, ml=True, early=early)
     return {"kind": "ml", "analyzer": name, "rows": rows, "points": [p], "perm_seed": rng.randrange(10 ** 6),
             "factors": gen_factors(rng), "labels": gen_labels(rng, rows), "rel": gen_rel(rng)}
 
@@ -561,6 +568,26 @@ def big_rows(seed, n_per_level):
         N = ND * (L / SD) ** (-k) * 10 ** (rng.normal(size=n_per_level) * C_STD * math.log10(TN))
         rows += [[L, 1e7, False] if (L < s_ or c_ >= 1e7) else [L, float(c_), True] for s_, c_ in zip(sd_i, N)]
     return rows
+
+
+def gen_intcycles(rng):
+    """a series whose cycle numbers are small whole numbers (10 .. 5000: written in thousands / millions of cycles) - handed to
+    the code as an int64 `cycles` column, as a float column, and multiplied by 1000 (int64), 2.5 and 0.001 (float)"""
+    for _ in range(400):
+        rows, _p = gen_rows(rng, ml=rng.random() < 0.5)
+        fr = sorted(r[1] for r in rows if r[2])
+        f = rng.choice([30.0, 200.0, 1500.0]) / fr[len(fr) // 2]
+        lim = max((r[1] for r in rows if not r[2]), default=None)
+        out = []
+        for L, N, fr_ in rows:
+            n = float(max(1, round(N * f)))
+            if lim is not None and fr_ and n >= round(lim * f):
+                n = float(round(lim * f) - 1)
+            out.append([L, n, fr_])
+        if (admissible(out) and all(5 <= r[1] <= 50000 for r in out if r[2]) and min(r[1] for r in out if r[2]) <= 5000
+                and len({r[1] for r in out if r[2]}) >= 3):
+            return {"kind": "intcycles", "rows": out, "perm_seed": rng.randrange(10 ** 6), "points": [], "labels": None}
+    raise RuntimeError("harness: generator could not produce an integer-cycles data set")
 
 
 def gen_history(rng):
@@ -861,6 +888,12 @@ class C18(Prop):
         for name in (REPO_DATA if big else [rng.choice(REPO_DATA)]):
             yield gen_ml_repo(rng, name, only=None if big else ["rows permuted"])
         yield {"kind": "big", "seed": rng.randrange(10 ** 6), "n_per_level": 3000}
+        for _ in range(40 if big else 4):
+            yield gen_intcycles(rng)
+        for _ in range(20 if big else 5):
+            yield gen_ml(rng, "MaxLikeInf", early=True)
+        for i in range(20 if big else 3):
+            yield gen_data(rng, mode=["natural", "nonmonotonic", "pure_runout_levels"][i % 3], early=True)
 
     # -------------------------------------------------------------- correspondence
     def _plan(self, case):
@@ -873,7 +906,7 @@ class C18(Prop):
         if k == "exact":
             return [("curve_exact", f"c18.elem {w}")]
         plan = [("zones", f"c18.zones {w}"), ("drop", f"c18.drop {w}")]
-        if k in ("data", "zero_start"):
+        if k in ("data", "zero_start", "intcycles"):
             plan += [("curve:Elementary", f"c18.elem {w}"), ("curve:Probit", f"c18.probit {w}")]
         if k == "staircase":
             plan += [("sdts:Probit", f"c18.probit {w}")]
@@ -1096,6 +1129,9 @@ class C18(Prop):
             names = ["Elementary", "Probit"] + (["MaxLikeInf"] if ml_admissible(case["rows"]) else [])
             return (self._oracle_zones(case) or self._oracle_fatigue_data(case)
                     or self._oracle_equivariance(case, names, CF_RTOL, rtols={"MaxLikeInf": ML_RTOL}))
+        if k == "intcycles":
+            names = ["Elementary", "Probit"] + (["MaxLikeInf"] if ml_admissible(case["rows"]) else [])
+            return self._oracle_equivariance(case, names, CF_RTOL, rtols={"MaxLikeInf": ML_RTOL})
         if k == "zero_start":
             return self._oracle_zero_start(case)
         if k == "big":
@@ -1245,6 +1281,14 @@ class C18(Prop):
                 a, b = (factors[0], factors[1]) if case["perm_seed"] % 2 else (factors[1], factors[0])
                 variants.append((f"loads x {a:g}", scaled(rows, cl=a), {"SD": a}, None, {}))
                 variants.append((f"cycles x {b:g}", scaled(rows, cn=b), {"ND": b}, None, {}))
+            if case["kind"] == "intcycles":
+                # the same tests with the cycle numbers in an int64 column / in other units: the estimate is a function of the
+                # NUMBERS (formalisation choice in ASSUMPTIONS), and scales with the unit of the cycles
+                variants = [("cycles column of dtype int64 (same numbers)", rows, {}, None, {"int_cycles": True}),
+                            ("int64 cycles column x 1000", scaled(rows, cn=1000.0), {"ND": 1000.0}, None, {"int_cycles": True}),
+                            ("cycles x 2.5", scaled(rows, cn=2.5), {"ND": 2.5}, None, {}),
+                            ("cycles x 0.001", scaled(rows, cn=0.001), {"ND": 0.001}, None, {}),
+                            ("rows permuted, int64 cycles column", permuted(rows, case["perm_seed"]), {}, None, {"int_cycles": True})]
             if case.get("only_variants"):
                 variants = [v for v in variants if any(v[0].startswith(p) for p in case["only_variants"])]
             variants.sort(key=lambda v: 0 if v[2] else 1)      # the scalings first (stable): a broken relation shows after few runs
@@ -1448,7 +1492,22 @@ class C18(Prop):
                     l1 = float(lh.likelihood_infinite(np.float64(res["SD"]), np.float64(res["TS"])))
                     # the property's wording ("than the elementary estimate"): recorded, not required - MaxLikeInf does not
                     # start from the elementary TS and re-evaluates ND, so the TOTAL likelihood may fall
-                    self._count("mlinf_total_likelihood_" + ("ge" if total(res) >= total(el) - 1e-9 else "lt") + "_elementary")
+                    # MaxLikeInf keeps k_1, TN and moves the knee ALONG the elementary Basquin line to its SD: the finite-life
+                    # part of the likelihood is the elementary one, the infinite-life part was maximised
+                    lt, le = total({k: res[k] for k in KEYS}), total({k: el[k] for k in KEYS})
+                    self._count("mlinf_total_likelihood_" + ("ge" if lt >= le - 1e-9 else "lt") + "_elementary")
+                    if el["SD"] > 0 and all(abs(el[k]) < math.inf for k in KEYS):
+                        want = el["ND"] * (res["SD"] / el["SD"]) ** (-el["k_1"])
+                        self._count("mlinf_knee_on_line_checks")
+                        if want > float(fd.runouts.cycles.max()):
+                            self._count("mlinf_knee_beyond_runout_cycles")
+                        if not same(res["ND"], want, 1e-8):
+                            return (f"MaxLikeInf: the knee (SD = {res['SD']!r}, ND = {res['ND']!r}) is not on the elementary Basquin line "
+                                    f"(k_1 = {el['k_1']!r} through SD = {el['SD']!r}, ND = {el['ND']!r}): the line gives ND = {want!r}",
+                                    "mlinf-knee-off-basquin-line")
+                        if abs(le) < math.inf and not (lt >= le - 1e-6 * max(1.0, abs(le))):
+                            return (f"MaxLikeInf: total log-likelihood of the result {lt!r} is lower than that of the elementary estimate {le!r}",
+                                    "ml-worse-than-start")
                 else:
                     mode = mlfull_mode(rows)
                     start = {k: el[k] for k in KEYS}
